@@ -185,6 +185,8 @@ class Lexer:
         pos = 0
         line = 1
         column = 0
+        startline = 1
+        startcolumn = 1
         updatepos = True
         while pos < len(self.script):
             ch = self.script[pos]
@@ -198,13 +200,16 @@ class Lexer:
             updatepos = True
 
             if state == 0:  # Eat whitespace
+                # a token that starts here starts at this character
+                startline = line
+                startcolumn = column
                 if ch == "#":
                     state = 9
                 elif ch in "+-*%":
                     token += ch
                     state = 10
                 elif ch in "()[],;":
-                    here = SourcePos(fname, line, column)
+                    here = SourcePos(fname, startline, startcolumn)
                     self.tokens.append(Token(ch, "interpunction", here))
                 elif ch == "/":
                     state = 5
@@ -227,19 +232,19 @@ class Lexer:
             elif state == 1:  # normal token
                 if ch in "()+-*/%[]<>=,;!\"' \t\r\n#":
                     if token == "TRUE":
-                        here = SourcePos(fname, line, column - len("TRUE"))
+                        here = SourcePos(fname, startline, startcolumn)
                         self.tokens.append(Token("TRUE", "boolean", here))
                         token = ""
                     elif token == "FALSE":
-                        here = SourcePos(fname, line, column - len("TRUE"))
+                        here = SourcePos(fname, startline, startcolumn)
                         self.tokens.append(Token("FALSE", "boolean", here))
                         token = ""
                     elif token in KEYWORDS:
-                        here = SourcePos(fname, line, column - len(token))
+                        here = SourcePos(fname, startline, startcolumn)
                         self.tokens.append(Token(token, "keyword", here))
                         token = ""
                     elif token:
-                        here = SourcePos(fname, line, column - len(token))
+                        here = SourcePos(fname, startline, startcolumn)
                         self.tokens.append(Token(token, "identifier", here))
                         token = ""
                     pos -= 1
@@ -248,7 +253,7 @@ class Lexer:
                 else:
                     token += ch
                     if token == "...":
-                        here = SourcePos(fname, line, column - len(token))
+                        here = SourcePos(fname, startline, startcolumn)
                         self.tokens.append(Token(token, "interpunction", here))
                         token = ""
                         state = 0
@@ -256,18 +261,18 @@ class Lexer:
             elif state == 2:  # <>, <=, >=, ==, <<, >>, <<<, >>>, !>, <*, *>
                 if ch == "=":
                     token += ch
-                    here = SourcePos(fname, line, column - len(token) - 1)
+                    here = SourcePos(fname, startline, startcolumn)
                     self.tokens.append(Token(token, "operator", here))
                     token = ""
                     state = 0
                 elif ch == ">" and token == "=":
                     token += ch
-                    here = SourcePos(fname, line, column - len(token) - 1)
+                    here = SourcePos(fname, startline, startcolumn)
                     self.tokens.append(Token(token, "interpunction", here))
                     token = ""
                     state = 0
                 elif ch == ">" and token == "<":
-                    here = SourcePos(fname, line, column - 1)
+                    here = SourcePos(fname, startline, startcolumn)
                     self.tokens.append(Token("<>", "operator", here))
                     token = ""
                     state = 0
@@ -279,17 +284,17 @@ class Lexer:
                     state = 21
                 elif ch == ">" and token == "!":
                     token += ch
-                    here = SourcePos(fname, line, column - len(token) - 1)
+                    here = SourcePos(fname, startline, startcolumn)
                     self.tokens.append(Token("!>", "operator", here))
                     token = ""
                     state = 0
                 elif ch == "*" and token == "<":
-                    here = SourcePos(fname, line, column - 1)
+                    here = SourcePos(fname, startline, startcolumn)
                     self.tokens.append(Token("<*", "interpunction", here))
                     token = ""
                     state = 0
                 else:
-                    here = SourcePos(fname, line, column - len(token))
+                    here = SourcePos(fname, startline, startcolumn)
                     self.tokens.append(Token(token, "operator", here))
                     token = ""
                     pos -= 1
@@ -298,17 +303,17 @@ class Lexer:
 
             elif state == 21:  # <<, >>, <<<, >>>
                 if ch == "<" and token == "<<":
-                    here = SourcePos(fname, line, column - 3)
+                    here = SourcePos(fname, startline, startcolumn)
                     self.tokens.append(Token("<<<", "interpunction", here))
                     token = ""
                     state = 0
                 elif ch == ">" and token == ">>":
-                    here = SourcePos(fname, line, column - 3)
+                    here = SourcePos(fname, startline, startcolumn)
                     self.tokens.append(Token(">>>", "interpunction", here))
                     token = ""
                     state = 0
                 else:
-                    here = SourcePos(fname, line, column - len(token))
+                    here = SourcePos(fname, startline, startcolumn)
                     self.tokens.append(Token(token, "interpunction", here))
                     token = ""
                     pos -= 1
@@ -317,7 +322,7 @@ class Lexer:
 
             elif state == 3:  # double quotes
                 if ch == '"':
-                    here = SourcePos(fname, line, column - len(token) - 2 + 1)
+                    here = SourcePos(fname, startline, startcolumn)
                     self.tokens.append(Token(token, "string", here))
                     token = ""
                     state = 0
@@ -348,13 +353,18 @@ class Lexer:
 
             elif state == 312:  # hex num second digit
                 tempbuf += ch
+                if any(c not in "0123456789abcdefABCDEF" for c in tempbuf):
+                    raise CklSyntaxError(
+                        f"Invalid hex escape \\x{tempbuf}",
+                        SourcePos(fname, line, column),
+                    )
                 token += chr(int(tempbuf, 16))
                 tempbuf = ""
                 state = 3
 
             elif state == 4:  # single quote
                 if ch == "'":
-                    here = SourcePos(fname, line, column - len(token) - 2 + 1)
+                    here = SourcePos(fname, startline, startcolumn)
                     self.tokens.append(Token(token, "string", here))
                     token = ""
                     state = 0
@@ -394,11 +404,11 @@ class Lexer:
                     token += "//"
                     state = 6
                 elif ch == "=":
-                    here = SourcePos(fname, line, column - 1)
+                    here = SourcePos(fname, startline, startcolumn)
                     self.tokens.append(Token("/=", "operator", here))
                     state = 0
                 else:
-                    here = SourcePos(fname, line, column - 1)
+                    here = SourcePos(fname, startline, startcolumn)
                     self.tokens.append(Token("/", "operator", here))
                     pos -= 1
                     updatepos = False
@@ -407,7 +417,7 @@ class Lexer:
             elif state == 6:  # pattern
                 token += ch
                 if token.endswith("//"):
-                    here = SourcePos(fname, line, column - len(token) - 4 + 1)
+                    here = SourcePos(fname, startline, startcolumn)
                     self.tokens.append(Token(token, "pattern", here))
                     token = ""
                     state = 0
@@ -419,7 +429,7 @@ class Lexer:
                 elif ch in "0123456789_":
                     token += ch
                 elif ch in "()[]<>=! \t\n\r+-*/%,;#":
-                    here = SourcePos(fname, line, column - len(token))
+                    here = SourcePos(fname, startline, startcolumn)
                     token = token.replace("_", "")
                     self.tokens.append(Token(token, "int", here))
                     token = ""
@@ -447,7 +457,11 @@ class Lexer:
                 if ch in "0123456789abcdefABCDEF_":
                     token += ch
                 elif ch in "()[]<>=! \t\n\r+-*/%,;#":
-                    here = SourcePos(fname, line, column - len(token))
+                    here = SourcePos(fname, startline, startcolumn)
+                    if not token.replace("_", ""):
+                        raise CklSyntaxError(
+                            "Hex literal without digits", here
+                        )
                     token = str(int(token.replace("_", ""), 16))
                     self.tokens.append(Token(token, "int", here))
                     token = ""
@@ -462,7 +476,11 @@ class Lexer:
                 if ch in "01_":
                     token += ch
                 elif ch in "()[]<>=! \t\n\r+-*/%,;#":
-                    here = SourcePos(fname, line, column - len(token))
+                    here = SourcePos(fname, startline, startcolumn)
+                    if not token.replace("_", ""):
+                        raise CklSyntaxError(
+                            "Binary literal without digits", here
+                        )
                     self.tokens.append(
                         Token(str(int(token.replace("_", ""), 2)), "int", here)
                     )
@@ -478,7 +496,7 @@ class Lexer:
                 if ch in "0123456789_":
                     token += ch
                 elif ch in "()[]<>=! \t\n\r+-*/%,;#":
-                    here = SourcePos(fname, line, column - len(token))
+                    here = SourcePos(fname, startline, startcolumn)
                     token = token.replace("_", "")
                     self.tokens.append(Token(token, "decimal", here))
                     token = ""
@@ -496,22 +514,22 @@ class Lexer:
             elif state == 10:  # potentially composite assign or -> or *>
                 if ch == "=":
                     token += ch
-                    here = SourcePos(fname, line, column)
+                    here = SourcePos(fname, startline, startcolumn)
                     self.tokens.append(Token(token, "operator", here))
                     token = ""
                     state = 0
                 elif token == "-" and ch == ">":
-                    here = SourcePos(fname, line, column)
+                    here = SourcePos(fname, startline, startcolumn)
                     self.tokens.append(Token("->", "operator", here))
                     token = ""
                     state = 0
                 elif token == "*" and ch == ">":
-                    here = SourcePos(fname, line, column)
+                    here = SourcePos(fname, startline, startcolumn)
                     self.tokens.append(Token("*>", "interpunction", here))
                     token = ""
                     state = 0
                 else:
-                    here = SourcePos(fname, line, column)
+                    here = SourcePos(fname, startline, startcolumn)
                     self.tokens.append(Token(token, "operator", here))
                     token = ""
                     pos -= 1
